@@ -201,13 +201,24 @@ func NewProofStructure(index, sign int, factor uint, bound *big.Int, splitter Sq
 			return nil, errors.New("factor must be 1")
 		}
 		// Not all numbers can be written as sum of 3 squares, but n for which n == 2 (mod 4) can
-		// so ensure that factor*m-bound falls into that category
+		// so ensure that sign*(factor*m-bound) falls into that category
 		factor *= 4
-		bound = new(big.Int).Mul(bound, big.NewInt(4)) // ensure we dont overwrite callers copy of bound
-		bound.Sub(bound, big.NewInt(2))
+		bound = threeSquaresBound(sign, bound)
 	}
 
 	return newWithParams(index, sign, factor, bound, splitter, splitter.SquareCount(), splitter.Ld())
+}
+
+// threeSquaresBound rescales the bound of a statement sign*(m - bound) >= 0 to the bound k of the
+// equivalent statement sign*(4*m - k) >= 0 whose left hand side is 2 (mod 4):
+// m >= bound iff 4m - (4*bound-2) >= 0, and m <= bound iff (4*bound+2) - 4m >= 0.
+// Always returns a new big.Int, so that the caller's copy of bound is not overwritten.
+func threeSquaresBound(sign int, bound *big.Int) *big.Int {
+	k := new(big.Int).Mul(bound, big.NewInt(4))
+	if sign == -1 {
+		return k.Add(k, big.NewInt(2))
+	}
+	return k.Sub(k, big.NewInt(2))
 }
 
 func newWithParams(index, sign int, a uint, k *big.Int, split SquareSplitter, nSplit int, ld uint) (*ProofStructure, error) {
@@ -444,8 +455,7 @@ func (p *Proof) ProvesStatement(sign int, factor uint, bound *big.Int) bool {
 	}
 	if len(p.Cs) == 3 {
 		factor *= 4
-		bound = new(big.Int).Mul(bound, big.NewInt(4))
-		bound.Sub(bound, big.NewInt(2))
+		bound = threeSquaresBound(sign, bound)
 	}
 	return p.Sign == sign && p.A == factor &&
 		(p.K.Cmp(bound) == 0 || p.K.Cmp(bound) == sign)
@@ -469,7 +479,13 @@ func (p *Proof) ProvenStatement() (StatementType, uint, *big.Int) {
 	bound := new(big.Int).Set(p.K)
 	factor := p.A
 	if len(p.Cs) == 3 {
-		bound.Add(bound, big.NewInt(2)).Rsh(bound, 2)
+		// undo threeSquaresBound, rounding such that the returned statement is implied by
+		// 4*attribute >= K respectively 4*attribute <= K for any K
+		if p.Sign == -1 {
+			bound.Rsh(bound, 2)
+		} else {
+			bound.Add(bound, big.NewInt(2)).Rsh(bound, 2)
+		}
 		factor >>= 2
 	}
 	var typ StatementType
